@@ -451,13 +451,12 @@ def run_impl(case):
     else:
         errc = ERRMAP.get(err, 'crash')
     se = o.get('stderr', '')
-    if errc == 'none' and any(e[0] == 'runtime_error' for e in o.get('raw', [])):
-        errc = 'duptarget'      # InvalidTask caught by Runner.run_all (reporter.runtime_error, exit 2)
+    rt = [str(e[1]) for e in o.get('raw', []) if e[0] == 'runtime_error' and len(e) > 1]
     if 'Must be a task, or a target' in se or 'not_found' in se:
         errc = 'notfound'
-    elif "can't have a common target" in se:
-        errc = 'duptarget'
-    elif errc == 'duptarget':
+    elif "can't have a common target" in se or any('common target' in m for m in rt):
+        errc = 'duptarget'      # InvalidTask caught by Runner.run_all (reporter.runtime_error, exit 2)
+    elif errc == 'duptarget' or rt:
         errc = 'invalid'
     obs = {'events': ev, 'err': errc, 'exit': o['exit'], 'unknown': unknown, 'stderr': o.get('stderr', '')[-300:],
            'raw_err': err}
@@ -644,7 +643,33 @@ def sig_subtask_then_regex(witness):
     return False
 
 
-SIGNATURES = {'subtask-then-regex-target': sig_subtask_then_regex}
+def _heads(witness):
+    return set(str(f).split(':')[0] for f in (witness.get('failed') or []))
+
+
+def sig_oddity(witness):
+    """subtask-then-regex-target, and nothing but its known consequences failed (tasks outside the selection's closure
+    executed / ordering judged against the creators' declared names / the KeyError)"""
+    return sig_subtask_then_regex(witness) and _heads(witness) <= {'target', 'obey', 'crash', 'utd'}
+
+
+def uncovered_creates(case):
+    out = []
+    for cr in case.get('creators', []):
+        for b in (cr.get('creates') or []):
+            if not any(y.get('basename') == b for y in cr['yields']):
+                out.append(b)
+    return out
+
+
+def sig_creates_not_yielded(witness):
+    """open finding creates-not-yielded: a creator declares a name in `creates` that none of its yields defines, and the
+    failing monitor is `once` (possibly with the duplicate-target abort / re-execution that follows from it)"""
+    case = witness.get('case') or {}
+    return bool(uncovered_creates(case)) and 'once' in _heads(witness) and _heads(witness) <= {'once', 'obey', 'target'}
+
+
+SIGNATURES = {'subtask-then-regex-target': sig_oddity, 'creates-not-yielded': sig_creates_not_yielded}
 
 
 def judge_one(case, obs, ans):
@@ -867,7 +892,7 @@ def eval_batch(batch):
             if failed:
                 small = case
                 want = set(f.split(':')[0] for f in failed)
-                known = sig_subtask_then_regex({'case': case})
+                known = any(sig({'case': case, 'failed': failed}) for sig in SIGNATURES.values())
                 if shrink_left > 0 and not known and len(st.violations) < 2:
                     t0 = time.time()
                     small = shrink(case, want, max_seconds=min(shrink_left, 12.0))
@@ -991,8 +1016,9 @@ def replay(ctx, data):
     print('model accepts the trace:', ans.get('accept'), '| hypotheses:', json.dumps(ans.get('wf')))
     if failed:
         print('FAILED:', '; '.join(failed))
-        if sig_subtask_then_regex({'case': c}):
-            print('(matches the open finding subtask-then-regex-target)')
+        for key, sig in SIGNATURES.items():
+            if sig({'case': c, 'failed': failed}):
+                print('(matches the open finding %s)' % key)
     if div:
         print('DIVERGENCE:', div)
     return not failed and not div
